@@ -41,10 +41,15 @@ BadOps == CASE bad = "none" -> << >>
             [] bad = "wrongpair" -> << Op("S2gate", <<Q(4, 3), A0>>, <<0, 1>>) >>
             [] bad = "toomuch" -> << Op("S2gate", <<Q(4, 1), A0>>, <<Sig(1), Idl(1)>>) >>      \* r = ln 4 > 1: out of range
             [] bad = "phase" -> << Op("S2gate", <<Q(4, 3), APi2>>, <<Sig(1), Idl(1)>>) >>          \* squeezing phase is fixed to 0 by the layout
-Source == CatSq(1) \o BadOps \o Interf
+            \* a passive gate between two squeezers of the first pair (not an "S2gates first" program)
+            [] bad = "sandwich_bs" -> << Op("BSgate", <<a345, A0>>, <<Sig(1), Idl(1)>>), Op("S2gate", <<Q(4, 3), A0>>, <<Sig(1), Idl(1)>>) >>
+            [] bad = "sandwich_r"  -> << Op("Rgate", <<a345>>, <<Sig(1)>>), Op("S2gate", <<Q(4, 3), A0>>, <<Sig(1), Idl(1)>>) >>
+            [] bad = "late" -> << >>
+\* "late": a squeezer of the first pair applied after the interferometer
+Source == CatSq(1) \o BadOps \o Interf \o (IF bad = "late" THEN << Op("S2gate", <<Q(4, 3), A0>>, <<Sig(1), Idl(1)>>) >> ELSE << >>)
 Init == /\ sq \in [1 .. NP -> 0 .. 4]
         /\ \E n \in 0 .. Len0 : \E f \in [1 .. n -> 1 .. Len(Pool)] : recipe = [j \in 1 .. n |-> Pool[f[j]]]
-        /\ dup \in BOOLEAN /\ meas \in {"all", "partial"} /\ bad \in {"none", "wrongpair", "toomuch", "phase"}
+        /\ dup \in BOOLEAN /\ meas \in {"all", "partial"} /\ bad \in {"none", "wrongpair", "toomuch", "phase", "sandwich_bs", "sandwich_r", "late"}
         /\ (bad # "none") => (dup /\ meas = "all")             \* one defect at a time
         /\ (~dup \/ meas = "partial") => bad = "none"
 Next == UNCHANGED <<sq, recipe, dup, meas, bad, cache>>
